@@ -28,7 +28,7 @@ import (
 
 const c20Rule = "rapid draws of histories over the ops register(custom type in {struct, named int64, named []string: bytes schema; named string: string schema; the unnamed type []float32 and the predeclared type uint64: bytes schema}, builder j in {0,1}, schema form in {T, [null,T]}) and " +
 	"roundtrip(a generated struct type placing registered types and unregistered look-alikes with the same underlying type as field, behind 1-2 pointers, as slice element, as map value, under omitempty, next to time.Time / null.*; values); " +
-	"every builder frames its payload with its own marker byte and counts Read/Write calls; also: a user registration for time.Time / null.Int followed by the library's own RegisterCodecs() again (latest wins both ways); model = latest registration per type; oracle per roundtrip: SchemaForType equals the model mapping with the registered schema at each occurrence " +
+	"every builder frames its payload with its own marker byte and counts Read/Write calls; also: a user registration for time.Time / null.Int followed by the library's own RegisterCodecs() again (latest wins both ways), and one record whose time.Time fields sit under timestamp-millis / -micros / long / string schemas (the registered builder must be given each position's schema); model = latest registration per type; oracle per roundtrip: SchemaForType equals the model mapping with the registered schema at each occurrence " +
 	"(wrapped in a union exactly when the mapping says so); the reference decoder finds the latest builder's marker at every occurrence and none at look-alikes (which use the default mapping); values round-trip; " +
 	"only the latest builder's counters move; non-trivial = a registered type in a slice-element or map-value position, or a roundtrip after a re-registration; distinct by case JSON hash"
 
@@ -360,9 +360,9 @@ type c20Op struct {
 	Register bool   `json:"register,omitempty"`
 	// SchemaFirst: RegisterSchema is called before Register for this registration.
 	SchemaFirst bool `json:"schema_first,omitempty"`
-	Type     int    `json:"type,omitempty"`
-	Builder  int    `json:"builder,omitempty"`
-	Nullable bool   `json:"nullable,omitempty"`
+	Type        int  `json:"type,omitempty"`
+	Builder     int  `json:"builder,omitempty"`
+	Nullable    bool `json:"nullable,omitempty"`
 	// roundtrip
 	TS      spec.TypeSpec    `json:"ts,omitempty"`
 	GoType  string           `json:"go_type,omitempty"`
@@ -399,6 +399,14 @@ func runC20(c c20Case) (bool, []string, error) {
 	reRegistered := false
 	var labels []string
 	for step, op := range c.Ops {
+		if op.LibCycle == "perpos" {
+			if err := c20PerPosition(step + len(c.Ops)); err != nil {
+				return true, append(labels, "per_position_schema"), fmt.Errorf("step %d: %v", step, err)
+			}
+			labels = append(labels, "per_position_schema")
+			nontrivial = true
+			continue
+		}
 		if op.LibCycle != "" {
 			if err := c20LibCycle(op.LibCycle); err != nil {
 				return true, append(labels, "library_type_reregistered"), fmt.Errorf("step %d: %v", step, err)
@@ -525,6 +533,77 @@ type libNullHolder struct {
 	Ns map[string]null.Int `json:"ns"`
 }
 
+// c20PerPosition: a registered builder is consulted with the schema of each
+// position: one record whose time.Time fields are carried as timestamp-millis,
+// timestamp-micros, a plain long and a string must use the right unit in each.
+type perPosHolder struct {
+	A time.Time   `json:"a"`
+	B time.Time   `json:"b"`
+	C time.Time   `json:"c"`
+	D *time.Time  `json:"d"`
+	E []time.Time `json:"e"`
+	F time.Time   `json:"f"`
+}
+
+func c20PerPosition(order int) error {
+	ms := ref.Schema{Kind: "long", LogicalType: "timestamp-millis", ObjectForm: true}
+	us := ref.Schema{Kind: "long", LogicalType: "timestamp-micros", ObjectForm: true}
+	fields := []ref.Field{{Name: "a", Type: ms}, {Name: "b", Type: us}, {Name: "c", Type: ref.Prim("long")},
+		{Name: "d", Type: ref.Nullable(us)}, {Name: "e", Type: ref.Schema{Kind: "array", Items: &ms}}, {Name: "f", Type: ref.Prim("string")}}
+	// the order in which the positions are met must not matter
+	for i := 0; i < order%len(fields); i++ {
+		fields = append(fields[1:], fields[0])
+	}
+	schema := ref.Schema{Kind: "record", Name: "P", Fields: fields}
+	lib, err := avro.SchemaFromString(ref.Render(schema, nil))
+	if err != nil {
+		return err
+	}
+	codec, err := lib.Codec(perPosHolder{})
+	if err != nil {
+		return fmt.Errorf("Schema.Codec: %v", err)
+	}
+	tm := time.Date(2021, 3, 4, 5, 6, 7, 123456000, time.UTC)
+	v := perPosHolder{A: tm, B: tm, C: tm, D: &tm, E: []time.Time{tm, tm}, F: tm}
+	wb := avro.NewWriteBuf(nil)
+	codec.Write(wb, unsafe.Pointer(&v))
+	d, err := ref.DecodeExact(schema, wb.Bytes())
+	if err != nil {
+		return fmt.Errorf("written record is not valid under the caller's schema: %v", err)
+	}
+	want := map[string]int64{"a": tm.UnixMilli(), "b": tm.UnixMicro(), "c": tm.UnixNano()}
+	for i, f := range fields {
+		fd := d.Fields[i]
+		switch f.Name {
+		case "a", "b", "c":
+			if fd.I != want[f.Name] {
+				return fmt.Errorf("field %s (%s) of one record written as %d, want %d: the time codec did not get this position's schema", f.Name, lt(f.Type), fd.I, want[f.Name])
+			}
+		case "d":
+			if fd.Branch != 1 || fd.U.I != tm.UnixMicro() {
+				return fmt.Errorf("field d ([null, timestamp-micros]) written as %+v", fd)
+			}
+		case "e":
+			if len(fd.Items) != 2 || fd.Items[0].I != tm.UnixMilli() {
+				return fmt.Errorf("field e (array of timestamp-millis) written as %+v", fd)
+			}
+		case "f":
+			if string(fd.S) != tm.Format(time.RFC3339Nano) {
+				return fmt.Errorf("field f (string) written as %q", fd.S)
+			}
+		}
+	}
+	var back perPosHolder
+	if err := codec.Read(avro.NewReadBuf(wb.Bytes()), unsafe.Pointer(&back)); err != nil {
+		return fmt.Errorf("reading the record back: %v", err)
+	}
+	msT, usT := tm.Truncate(time.Millisecond), tm.Truncate(time.Microsecond)
+	if !back.A.Equal(msT) || !back.B.Equal(usT) || !back.C.Equal(tm) || back.D == nil || !back.D.Equal(usT) || len(back.E) != 2 || !back.E[1].Equal(msT) || !back.F.Equal(tm) {
+		return fmt.Errorf("one record with time fields under different logical types read back as %+v", back)
+	}
+	return nil
+}
+
 func c20LibCycle(lib string) error {
 	var typ reflect.Type
 	var holder interface{}
@@ -600,7 +679,7 @@ func drawC20(t *rapid.T) c20Case {
 	n := gen.UniformRange(t, "nops", 1, 8)
 	for i := 0; i < n; i++ {
 		if gen.Uniform(t, "libcycle", 12) == 0 {
-			c.Ops = append(c.Ops, c20Op{LibCycle: []string{"time", "null"}[gen.Uniform(t, "lib", 2)]})
+			c.Ops = append(c.Ops, c20Op{LibCycle: []string{"time", "null", "perpos"}[gen.Uniform(t, "lib", 3)]})
 			continue
 		}
 		if gen.Uniform(t, "op", 3) == 0 {
